@@ -28,6 +28,8 @@ def gen(rnd, idx, excl_witness=False):
     D["chain"] = rnd.random() < 0.35  # a second Connect chained through a forwarding transaction
     D["share"] = idx % 3 == 0  # callers on both sides may call common nonexclusive methods
     D["user_sim"] = rnd.random() < 0.4  # additionally two user methods declared simultaneous(), called by two more transactions
+    # the callers hand the exchanged data on to methods with validate_arguments: their readiness depends on the data delivered through the Connect
+    D["vsink"] = rnd.random() < 0.4
     if not D["share"]:
         used = set()
         for lst in D["wx"] + D["rx"]:
@@ -77,11 +79,26 @@ class Emit(Elaboratable):
             def _():
                 pass
         self.wt, self.rt = [], []
+        vs = D.get("vsink", False)
+        if vs:
+            self.sinks = [Method(name=f"sink{i}", i=[("d", 4)]) for i in range(D["nr"])]
+            self.tsinks = [Method(name=f"tsink{i}", i=[("r", 4)]) for i in range(D["nw"])]
+            self.sink_got = [Signal(4, name=f"sink_got{i}") for i in range(D["nr"])]
+            for i in range(D["nr"]):
+                @def_method(m, self.sinks[i], validate_arguments=lambda d: d[0])
+                def _(d):
+                    m.d.comb += self.sink_got[i].eq(d)
+            for i in range(D["nw"]):
+                @def_method(m, self.tsinks[i], validate_arguments=lambda r: r != 0)
+                def _(r):
+                    pass
         for i in range(D["nw"]):
             with (t := Transaction(name=f"W{i}")).body(m, ready=self.wr[i]):
                 r = src_write(m, d=self.wa[i])
                 if D["rev"]:
                     m.d.comb += self.wres[i].eq(r.r)
+                    if vs:
+                        self.tsinks[i](m, r=r.r)
                 for j in D["wx"][i]:
                     ms[j](m)
             self.wt.append(t)
@@ -89,6 +106,8 @@ class Emit(Elaboratable):
             with (t := Transaction(name=f"R{i}")).body(m, ready=self.rr[i]):
                 r = snk_read(m, **({"r": self.ra[i]} if D["rev"] else {}))
                 m.d.comb += self.rres[i].eq(r.d)
+                if vs:
+                    self.sinks[i](m, d=r.d)
                 for j in D["rx"][i]:
                     ms[j](m)
             self.rt.append(t)
@@ -157,6 +176,26 @@ def run_one(rec, rnd, idx, cycles, excl_witness=False):
                     rec.check("C13:connect_read_and_write_run_in_exactly_the_same_cycles", w2 == r2, klass=klass, case=case, detail=dict(det, second_connect=[w2, r2]))
                     rec.check("C13:chained_connects_transfer_together", w2 == cw, klass=klass, case=case, detail=dict(det, second_connect=[w2, r2]))
                 rec.check("C13:one_writer_per_transfer_and_one_reader", sum(wrun) == sum(rrun) and sum(wrun) <= 1, klass=klass, case=case, detail=det)
+                if not excl_witness and not (D.get("vsink") and (D["nw"] > 1 or D["nr"] > 1)):
+                    # (with several callers at one end the argument a validator downstream sees is selected by the arbitration result itself, so
+                    # "ready on the delivered data" is not defined before the grant: the progress clause is judged only for single-caller ends then)
+                    # all writer/reader pairs conflict with each other (they share the Connect), every other method is nonexclusive: a transfer
+                    # happens iff some pair is ready, where readiness of the validated sinks is judged on the data the Connect delivers
+                    vs = D.get("vsink", False)
+                    mrv = [ctx.get(s) for s in e.mr]
+
+                    def pair_ready(wi, ri):
+                        ok = ctx.get(e.wr[wi]) and ctx.get(e.rr[ri]) and (not D["chain"] or ctx.get(e.fr))
+                        ok = ok and all(mrv[j] for j in D["wx"][wi] + D["rx"][ri])
+                        if vs:
+                            ok = ok and (ctx.get(e.wa[wi]) & 1) and (not D["rev"] or ctx.get(e.ra[ri]) != 0)
+                        return bool(ok)
+
+                    some = any(pair_ready(wi, ri) for wi in range(D["nw"]) for ri in range(D["nr"]))
+                    rec.check("C13:transfer_happens_iff_some_writer_reader_pair_is_ready_on_the_delivered_data", bool(any(wrun)) == some, case=case,
+                              detail=dict(det, written=[ctx.get(s) for s in e.wa], reader_arguments=[ctx.get(s) for s in e.ra], validated_sinks=vs))
+                    if vs and any(ctx.get(e.wr[wi]) and ctx.get(e.rr[ri]) for wi in range(D["nw"]) for ri in range(D["nr"])) and not some:
+                        rec.count("cycles_where_only_the_exchanged_data_blocks_the_transfer")
                 if any(wrun) and sum(wrun) == 1 and sum(rrun) == 1:
                     rec.count("transfers")
                     wi, ri = wrun.index(1), rrun.index(1)
@@ -166,6 +205,10 @@ def run_one(rec, rnd, idx, cycles, excl_witness=False):
                         rec.check("C13:reverse_data_is_delivered_to_the_writer_in_the_same_cycle", ctx.get(e.wres[wi]) == ctx.get(e.ra[ri]), case=case,
                                   detail=dict(det, reader_argument=ctx.get(e.ra[ri]), writer_result=ctx.get(e.wres[wi])))
                         rec.count("reverse_transfers")
+                    if D.get("vsink"):
+                        rec.count("transfers_into_validated_sinks")
+                        rec.check("C13:data_written_is_delivered_to_the_reader_in_the_same_cycle", ctx.get(e.sink_got[ri]) == ctx.get(e.wa[wi]), case=case,
+                                  detail=dict(det, written=ctx.get(e.wa[wi]), sink_got=ctx.get(e.sink_got[ri])))
                     rec.check("C03:callers_run_only_with_their_other_methods_ready(consistency)", all(ctx.get(e.mr[j]) for j in D["wx"][wi] + D["rx"][ri]), case=case, detail=det)
                     rec.nontrivial(f"w{wi}r{ri}|rev{int(D['rev'])}|chain{int(D['chain'])}|share{int(D['share'])}")
                 elif any(ctx.get(s) for s in e.wr) != any(ctx.get(s) for s in e.rr):
@@ -189,10 +232,24 @@ def run_one(rec, rnd, idx, cycles, excl_witness=False):
 def shards(tier, seed):
     n = 150 if tier == "quick" else 8000
     per = 5 if tier == "quick" else 50
-    return [{"seed": seed, "first": i, "n": per, "cycles": 250 if tier == "quick" else 500} for i in range(0, n, per)]
+    ncond = 12 if tier == "quick" else 300
+    return [{"seed": seed, "first": i, "n": per, "cycles": 250 if tier == "quick" else 500} for i in range(0, n, per)] + \
+        [{"seed": seed, "cond": True, "first": i * 8, "n": 8, "cycles": 300 if tier == "quick" else 800} for i in range(ncond)]
 
 
 def run_shard(spec, rec):
+    if spec.get("cond"):
+        # nested condition() blocks inside (conditionally called) methods: chains of simultaneous() bodies built by the library itself
+        from . import c12
+        from ..gen.checks import transfer
+        from ..rec import Rec
+        for i in range(spec["first"], spec["first"] + spec["n"]):
+            sub = Rec("C13", rec.shard)
+            c12.run_one(sub, random.Random(f"C13:cond:{spec['seed']}:{i}"), i, spec["cycles"])
+            sub.counters = type(sub.counters)({("cond_profile_" + k): v for k, v in sub.counters.items()})
+            sub.distinct = set()
+            transfer(sub, rec, ("C13:",))
+        return
     if spec.get("witness") == "excl_share":
         run_one(rec, random.Random("C13:witness"), -1, 200, excl_witness=True)
         return
@@ -208,9 +265,14 @@ def run_shard(spec, rec):
 RULE = ("generated topologies: 1-2 writer and 1-3 reader transactions around a Connect (reverse layout in half of them), optionally a second Connect chained "
         "through a forwarding transaction (forward and reverse data routed through it), callers that also call 0-2 nonexclusive methods with random "
         "readiness (one third of the designs let both sides share such methods), optionally two user methods declared simultaneous() with their own "
-        "callers; oracle per cycle: read.run == write.run for every Connect and declared pair, chained Connects transfer together, the reader observes the "
-        "writer's argument and the writer the reader's argument in the same cycle; distinct non-trivial case = (writer, reader, reverse, chain, share)")
-ASSUMPTIONS = ["ends that share an *exclusive* method through a chain are not generated (residual part of finding F11)"]
+        "callers; in 40% of the designs each caller hands the received data on to its own method with validate_arguments (odd data / non-zero reverse data), so the "
+        "callers' readiness depends on the data delivered through the Connect; oracle per cycle: read.run == write.run for every Connect and declared pair, chained "
+        "Connects transfer together, the reader (and its validated sink) observes the writer's argument and the writer the reader's argument in the same cycle, and a "
+        "transfer happens iff some writer/reader pair is ready judged on the delivered data; distinct non-trivial case = (writer, reader, reverse, chain, share)")
+ASSUMPTIONS = ["with validated sinks the progress clause (transfer iff some pair ready) is judged only when each end of the Connect has one caller: with several callers "
+               "the data a downstream validator sees is selected by the arbitration result, which is outside the documented readiness rules",
+               "ends that share an *exclusive* method through a chain are not generated (residual part of finding F11)"]
 MINIMA = {"quick": {"cycles": 20000, "transfers": 4000, "reverse_transfers": 1000, "one_sided_ready_cycles": 2000, "user_simultaneous_runs": 500,
-                    "designs_where_both_sides_share_a_nonexclusive_method": 5, "distinct": 12},
+                    "designs_where_both_sides_share_a_nonexclusive_method": 5, "transfers_into_validated_sinks": 300,
+                    "cycles_where_only_the_exchanged_data_blocks_the_transfer": 300, "distinct": 12},
           "thorough": {"cycles": 2000000, "distinct": 20}}
